@@ -703,7 +703,10 @@ class Ret(Exception):
 
 
 class Thrown(Exception):
-    pass
+    """a C++ exception; ty = (desugared) type name of the thrown object when known"""
+    def __init__(s, ty=None):
+        Exception.__init__(s, ty or 'exception')
+        s.ty = ty
 
 
 class Brk(Exception):
@@ -1141,7 +1144,25 @@ class Exec:
             raise Cont()
         elif k == 'NullStmt':
             pass
-        elif k in ('CXXTryStmt', 'GotoStmt', 'DoStmt', 'LabelStmt'):
+        elif k == 'CXXTryStmt':
+            try:
+                s.stmt(n['inner'][0])
+            except Thrown as e:
+                for h in n['inner'][1:]:
+                    parts = h.get('inner', [])
+                    decl = parts[0] if parts and parts[0].get('kind') == 'VarDecl' else None
+                    hty = (decl['type'].get('desugaredQualType') or decl['type'].get('qualType') or '') if decl else None
+                    base = re.sub(r'\bconst\b|&|\bclass\b|\s', '', hty) if hty is not None else None
+                    thrown = re.sub(r'\bconst\b|&|\bclass\b|\s', '', e.ty) if e.ty else None
+                    # a handler matches the same type, catch (...), or std::exception for a known std exception type (no other base-class knowledge)
+                    if hty is None or (thrown is not None and (base == thrown or (base == 'std::exception' and thrown.startswith('std::')))):
+                        if decl is not None and decl.get('name'):
+                            s.env[decl['name']] = {'__class__': 'exception', 'type': e.ty}
+                        s.stmt(parts[-1])
+                        break
+                else:
+                    raise
+        elif k in ('GotoStmt', 'DoStmt', 'LabelStmt'):
             raise Unsupported('unsupported AST node %s at line %s' % (k, src_line(n)))
         else:
             s.expr(n)
@@ -1284,7 +1305,11 @@ class Exec:
         if k == 'CXXThisExpr':
             return s.this
         if k == 'CXXThrowExpr':
-            raise Thrown()
+            ty = None
+            if n.get('inner'):
+                t0 = n['inner'][0].get('type', {})
+                ty = t0.get('desugaredQualType') or t0.get('qualType')
+            raise Thrown(ty)
         if k == 'LambdaExpr':
             return Lambda(n, s)
         if k == 'DeclRefExpr':
@@ -1535,6 +1560,13 @@ class Exec:
                 return s.arith(op[8], a, b)
             if op[8:] in REL:
                 return s.compare(op[8:], a, b)
+            if op in ('operator||', 'operator&&') and isinstance(a, BoolArr) and isinstance(b, BoolArr) and len(a) == len(b):
+                def sy(x): return sp.true if x is True else (sp.false if x is False else x)
+                out = BoolArr()
+                for x, y in zip(a, b):
+                    r = (sp.Or if op == 'operator||' else sp.And)(sy(x), sy(y))
+                    out.append(bool(r) if r in (sp.true, sp.false) else r)
+                return out
         raise Unsupported('operator call %s/%d' % (op, len(args)))
 
     def membercall(s, n):
